@@ -7,17 +7,10 @@ from sa.calls import Resolver
 from sa.core import AnalysisError, Repo, Report, call_name, kwarg, parent, unparse, walk_no_nested
 from sa.selftest import Edit, Variant
 
-EXPLANATION = (
-    "A relation between two conversions cannot be observed statically; what is decided is that ignorable nodes are removed or skipped before "
-    "any decision that counts, orders or interprets nodes: (parser) the single XML entry point drops comments and blank text; (order, by "
-    "dominance on the CFG of topicosvg) the junk removers dominate the first stages that read attributes or count children "
-    "(apply_style_attributes, resolve_nested_svgs, shapes_to_paths, resolve_use, simplify) and processing instructions are removed on every "
-    "path; (removers) each remover selects its targets with a materialised query and never deletes while walking a live tree iterator, "
-    "remove_nonsvg_content drops foreign-namespace elements and attributes, remove_title_meta_desc covers title/desc/metadata, "
-    "remove_anonymous_symbols selects symbols without id; (filters) every child iteration that counts, indexes or dispatches filters comments "
-    "and processing instructions, and attribute-less groups are removable before their children are looked at."
-)
-ASSUMPTIONS = ["numbering of generated gradient ids, order of gradients in defs and last-digit rounding may differ (as the property allows)"]
+from sa.texts import T as _T
+
+EXPLANATION = _T["C14"]["explanation"] + " Not decided: " + _T["C14"]["not_decided"] + "."
+ASSUMPTIONS = _T["C14"]["assumptions"]
 P = "C14"
 REMOVERS = ["remove_nonsvg_content", "remove_processing_instructions", "remove_anonymous_symbols", "remove_title_meta_desc"]
 READERS = ["apply_style_attributes", "resolve_nested_svgs", "shapes_to_paths", "expand_shorthand", "resolve_use", "simplify"]
